@@ -767,11 +767,13 @@ mod pattern_impl {
     pub struct RegexSearcher<'r, 't> {
         haystack: &'t str,
         regex: &'r Regex,
-        current_pos: usize,
-        done: bool,
-        // For reverse searching
-        reverse_pos: usize,
-        reverse_done: bool,
+        // The haystack has been reported (as Match or Reject steps) up to this offset.
+        reported_pos: usize,
+        // Where to look for the next match, or None if there cannot be any more matches.
+        search_pos: Option<usize>,
+        // Once searching from the back has begun: all of the remaining steps in forward order,
+        // and the index of the next one to hand out from the front.
+        remaining: Option<(Vec<SearchStep>, usize)>,
     }
 
     impl<'r, 't> RegexSearcher<'r, 't> {
@@ -779,24 +781,50 @@ mod pattern_impl {
             Self {
                 haystack,
                 regex,
-                current_pos: 0,
-                done: false,
-                reverse_pos: haystack.len(),
-                reverse_done: false,
+                reported_pos: 0,
+                search_pos: Some(0),
+                remaining: None,
             }
         }
 
-        fn find_last_match_before(&self, pos: usize) -> Option<super::Match> {
-            // Find all matches up to the given position and return the last one
-            let mut last_match = None;
-            for m in self.regex.find_from(self.haystack, 0) {
-                if m.end() <= pos {
-                    last_match = Some(m);
-                } else {
-                    break;
+        // Compute the next step from the front.
+        // Steps are adjacent: every step starts where the previous one ended.
+        fn forward_step(&mut self) -> SearchStep {
+            let len = self.haystack.len();
+            let next_match = self
+                .search_pos
+                .and_then(|pos| self.regex.find_from(self.haystack, pos).next());
+            let Some(m) = next_match else {
+                // No more matches: reject the remaining text, if any.
+                self.search_pos = None;
+                if self.reported_pos < len {
+                    let reject_start = self.reported_pos;
+                    self.reported_pos = len;
+                    return SearchStep::Reject(reject_start, len);
                 }
+                return SearchStep::Done;
+            };
+
+            // Report the gap before the match first; the match itself is found again by the next call.
+            if self.reported_pos < m.start() {
+                let reject_start = self.reported_pos;
+                self.reported_pos = m.start();
+                self.search_pos = Some(m.start());
+                return SearchStep::Reject(reject_start, m.start());
             }
-            last_match
+
+            self.reported_pos = m.end();
+            self.search_pos = if m.start() != m.end() {
+                Some(m.end())
+            } else {
+                // After an empty match resume one character further on, as find_iter does;
+                // the skipped character is rejected by a later step.
+                self.haystack[m.end()..]
+                    .chars()
+                    .next()
+                    .map(|c| m.end() + c.len_utf8())
+            };
+            SearchStep::Match(m.start(), m.end())
         }
     }
 
@@ -806,57 +834,15 @@ mod pattern_impl {
         }
 
         fn next(&mut self) -> SearchStep {
-            if self.done {
-                return SearchStep::Done;
-            }
-
-            // Try to find the next match starting from current position
-            if let Some(m) = self.regex.find_from(self.haystack, self.current_pos).next() {
-                let match_start = m.start();
-                let match_end = m.end();
-
-                // Handle any gap between current position and match start
-                if self.current_pos < match_start {
-                    let reject_end = match_start;
-                    let reject_start = self.current_pos;
-                    self.current_pos = match_start;
-                    return SearchStep::Reject(reject_start, reject_end);
-                }
-
-                // Return the match
-                self.current_pos = match_end;
-
-                // Handle zero-width matches to avoid infinite loops
-                if match_start == match_end {
-                    // For zero-width matches, we need to advance at least one byte
-                    // to avoid infinite loops
-                    if match_end < self.haystack.len() {
-                        // Find the next character boundary
-                        let mut next_pos = match_end + 1;
-                        while next_pos < self.haystack.len()
-                            && !self.haystack.is_char_boundary(next_pos)
-                        {
-                            next_pos += 1;
-                        }
-                        self.current_pos = next_pos;
+            match &mut self.remaining {
+                None => self.forward_step(),
+                Some((steps, front)) => {
+                    if *front < steps.len() {
+                        *front += 1;
+                        steps[*front - 1]
                     } else {
-                        // We're at the end of the string
-                        self.done = true;
+                        SearchStep::Done
                     }
-                }
-
-                SearchStep::Match(match_start, match_end)
-            } else {
-                // No more matches, reject remaining text if any
-                if self.current_pos < self.haystack.len() {
-                    let reject_start = self.current_pos;
-                    let reject_end = self.haystack.len();
-                    self.current_pos = self.haystack.len();
-                    self.done = true;
-                    SearchStep::Reject(reject_start, reject_end)
-                } else {
-                    self.done = true;
-                    SearchStep::Done
                 }
             }
         }
@@ -864,54 +850,23 @@ mod pattern_impl {
 
     unsafe impl<'r, 't> ReverseSearcher<'t> for RegexSearcher<'r, 't> {
         fn next_back(&mut self) -> SearchStep {
-            if self.reverse_done {
-                return SearchStep::Done;
-            }
-
-            // Try to find the last match before current reverse position
-            if let Some(m) = self.find_last_match_before(self.reverse_pos) {
-                let match_start = m.start();
-                let match_end = m.end();
-
-                // Handle any gap between match end and current reverse position
-                if match_end < self.reverse_pos {
-                    let reject_start = match_end;
-                    let reject_end = self.reverse_pos;
-                    self.reverse_pos = match_end;
-                    return SearchStep::Reject(reject_start, reject_end);
-                }
-
-                // Return the match
-                self.reverse_pos = match_start;
-
-                // Handle zero-width matches
-                if match_start == match_end {
-                    // For zero-width matches, move back by one character
-                    if match_start > 0 {
-                        let mut prev_pos = match_start - 1;
-                        while prev_pos > 0 && !self.haystack.is_char_boundary(prev_pos) {
-                            prev_pos -= 1;
-                        }
-                        self.reverse_pos = prev_pos;
-                    } else {
-                        // We're at the beginning of the string
-                        self.reverse_done = true;
+            // A regex can only be matched forwards, so the steps from the back are
+            // the remaining forward steps taken in reverse order.
+            if self.remaining.is_none() {
+                let mut steps = Vec::new();
+                loop {
+                    match self.forward_step() {
+                        SearchStep::Done => break,
+                        step => steps.push(step),
                     }
                 }
-
-                SearchStep::Match(match_start, match_end)
-            } else {
-                // No more matches, reject remaining text if any
-                if self.reverse_pos > 0 {
-                    let reject_start = 0;
-                    let reject_end = self.reverse_pos;
-                    self.reverse_pos = 0;
-                    self.reverse_done = true;
-                    SearchStep::Reject(reject_start, reject_end)
-                } else {
-                    self.reverse_done = true;
-                    SearchStep::Done
+                self.remaining = Some((steps, 0));
+            }
+            match &mut self.remaining {
+                Some((steps, front)) if *front < steps.len() => {
+                    steps.pop().unwrap_or(SearchStep::Done)
                 }
+                _ => SearchStep::Done,
             }
         }
     }
